@@ -100,6 +100,8 @@ func RunWithTrace(ctx context.Context, args []string, inReader io.ReadCloser, ou
 		Port: uint32(tcpAddr.Port),
 	}
 	if err := codec.NewEncoder(outWriter).Encode(resp); err != nil {
+		// Nobody will learn the address. Don't leave the listener behind.
+		_ = listener.Close()
 		return err
 	}
 
